@@ -1,63 +1,196 @@
-"""C13 - Thread start/join, ThreadGroup, parallel_for, Semaphore/Condition (spec/ThreadLife.tla, ParFor.tla, SyncPrims.tla)."""
+"""C13 - Thread start/join/copy/restart/destroy, ThreadGroup, parallel_for, Semaphore/Mutex/Condition incl. timed and
+non-blocking variants (spec/ThreadLife.tla, ThreadGroupLife.tla, ThreadObjLife.tla, ParFor.tla, SyncPrims.tla,
+Trace_SyncPrims.tla)."""
+import concurrent.futures as cf
+import copy
 import os
 import subprocess
+import threading
 import vlib
 
 META = {
-    "engine": "ThreadLife.tla, ThreadGroupLife.tla, ParFor.tla, SyncPrims.tla, Trace_SyncPrims.tla",
-    "technique": "TLC enumerates all creator/worker interleavings of ThreadLife.tla (invariants + termination under fairness); "
-                 "each is forced onto real asl::Thread objects by a token-passing scheduler at the library's hook points and "
-                 "compared step by step; ParFor.tla's partition theorem is checked over the whole index grid and each grid "
-                 "point replayed on Thread::parallel_for; recorded semaphore/condition executions validated against SyncPrims.tla",
+    "engine": "ThreadLife.tla, ThreadGroupLife.tla, ThreadObjLife.tla, ParFor.tla, SyncPrims.tla, Trace_SyncPrims.tla",
+    "technique": "TLC enumerates all creator/worker interleavings of ThreadLife.tla / ThreadGroupLife.tla and all creator programs "
+                 "x interleavings of ThreadObjLife.tla (thread objects copied, restarted, destroyed; invariants + termination "
+                 "under fairness); each behaviour is forced onto real asl::Thread objects by a token-passing scheduler at the "
+                 "library's hook points and compared step by step; ParFor.tla's partition theorem (also composed for nested "
+                 "loops) is checked over the whole index grid and each grid point replayed on Thread::parallel_for; SyncPrims.tla "
+                 "is the design model of Semaphore / Mutex / Condition incl. wait(timeout), trywait, trylock (safety + liveness); "
+                 "recorded executions of the real primitives are validated against Trace_SyncPrims.tla, which keeps sound lower "
+                 "and upper bounds of every semaphore / mutex from the begin/end events of each call",
     "design_ref": "DESIGN.md section 6, C13",
     "level_text": "Exhaustive model checking of the hand-over design (all interleavings of the hook-level steps, both thread "
-                  "flavours), exhaustive grid -3..40 x 1..12 for parallel_for, bound to the code by scheduler-forced replay (R) "
-                  "and by validation of recorded free-running executions with jitter (V), all under ASan.",
+                  "flavours), of the thread-object life cycle (all programs of <= 4 (quick) / 6 (thorough) operations from "
+                  "{start, lambda-construct, copy, join, destroy} x all interleavings, 2 objects, 2 runs) and of the "
+                  "synchronisation design model (semaphore hand-off with timed/try waits and interrupts; condition protocol with "
+                  "timed waiters and a trylock poller; liveness under fairness); exhaustive grid -3..40 x 1..12 for parallel_for "
+                  "and 4 x 4 x 3 x 3 for nested parallel_for; bound to the code by scheduler-forced replay (R) and by validation "
+                  "of recorded free-running executions with jitter (V), all under ASan.",
     "level_note": "Interleavings are those of the hook points compiled in with -DASL_VERIF (hardware reorderings below that "
-                  "granularity are not explored). Liveness of Semaphore/Condition is observed as termination within a time bound.",
+                  "granularity are not explored). Liveness of Semaphore/Condition is observed as termination within a time bound. "
+                  "A time-out / refusal is judged a lost post only when the log proves that a unit was available during the whole "
+                  "call (lower bound > 0); shorter overlaps cannot be decided from a log. The Win32 branch of Mutex.h (non-atomic "
+                  "Condition::wait) is model-checked only (SyncPrims AtomicWait = FALSE loses a signal), it cannot be executed here. "
+                  "Destroying the object of a thread that is still running (destructor detaches, worker then stores into the dead "
+                  "object) is outside the documented usage: shown on the model (ThreadObjLife DestroyRunning), not replayed.",
 }
 
 SRC = ["c13_threads.cpp"]
 
 
+def _run_models(ctx, jobs):
+    """jobs: list of lists; every inner list is a sequence of (spec, cfg, kwargs) run one after the other (same module),
+    the inner lists run concurrently.  Returns {(spec, cfg): TlcResult}.  No access to ctx from the worker threads."""
+    res = {}
+    lock = threading.Lock()
+
+    def chain(seq):
+        for spec, cfg, kw in seq:
+            r = vlib.tlc(spec, cfg, **kw)
+            with lock:
+                res[(spec[:-4] if spec.endswith(".tla") else spec, cfg)] = r
+
+    with cf.ThreadPoolExecutor(len(jobs)) as ex:
+        for f in [ex.submit(chain, seq) for seq in jobs]:
+            f.result()
+    return res
+
+
+def _accept(ctx, res, spec, cfg, must_cover=True, ignore_cov=()):
+    r = res[(spec, cfg)]
+    what = "%s/%s" % (spec, cfg)
+    vlib.tlc_expect_ok(r, what)
+    if must_cover:
+        z = vlib.zero_coverage(r, ignore_cov)
+        if z:
+            raise vlib.HarnessError("%s: vacuous run, actions never taken: %s" % (what, z))
+    ctx.states += r.distinct
+    ctx.transitions += r.generated
+    ctx.engines.append("%s: %d distinct states, %d transitions, depth %d, %.1fs" % (what, r.distinct, r.generated, r.depth, r.wall))
+    vlib.log(ctx.engines[-1])
+    return r
+
+
+def _expect_violation(ctx, res, spec, cfg, name, why):
+    r = res[(spec, cfg)]
+    v = r.violated()
+    if v is None and any(("Temporal property %s was violated" % name) in ln for ln in r.lines):
+        v = name
+    if v != name:
+        raise vlib.HarnessError("%s/%s should violate %s (%s), got %s\n%s" % (spec, cfg, name, why, v, r.tail()))
+    ctx.engines.append("%s/%s: %s violated as expected (%s)" % (spec, cfg, name, why))
+
+
 def run(ctx):
     lib = vlib.build_lib("asan")
     rep = vlib.build_harness(lib, "c13_threads", SRC)
-    cases = os.path.join(ctx.tmp, "c13.cases")
-    parts = []
-    for fl in ("lambda", "subclass"):
-        p = os.path.join(ctx.tmp, "tl-%s.cases" % fl)
-        ctx.model("ThreadLife", "MC_ThreadLife_" + fl, emit_to=p, workers=1, timeout=300, must_cover=True,
-                  ignore_cov=("CSpin", "CSpun", "WBody") if fl == "subclass" else ())
-        parts.append(p)
-    p = os.path.join(ctx.tmp, "tg.cases")
-    ctx.model("ThreadGroupLife", ctx.pick("MC_ThreadGroupLife_2", "MC_ThreadGroupLife_3"), emit_to=p, workers=ctx.pick(4, 16),
-              timeout=ctx.pick(300, 1800), must_cover=True)
-    parts.append(p)
-    # non-vacuity of the invariants: the pre-fix design (SelfCopy) must be rejected by the model
-    r = vlib.tlc("ThreadLife", "MC_ThreadLife_lambda_asis", workers=1, timeout=300)
-    if r.violated() != "FinishedAfterJoin":
-        raise vlib.HarnessError("ThreadLife: the as-is (SelfCopy) variant should violate FinishedAfterJoin\n" + r.tail())
-    ctx.engines.append("ThreadLife/SelfCopy variant: FinishedAfterJoin violated as expected (invariant is not vacuous)")
-    p = os.path.join(ctx.tmp, "pfor.cases")
-    ctx.model("ParFor", "MC_ParFor_quick", emit_to=p, workers=1, timeout=600, must_cover=False)
-    parts.append(p)
-    with open(cases, "w") as out:
-        for p in parts:
-            out.write(open(p).read())
-    ctx.exhaustive = True
-    ctx.rule = ("cases = every terminal behaviour of ThreadLife.tla (schedule + expected observables per step) and every grid point "
-                "of ParFor.tla; non-trivial = schedule cases and non-empty ranges; distinct by case line")
-    ctx.replay(rep, cases, label="R/ThreadLife+ParFor", args=["--batch", "200"], timeout=ctx.pick(600, 1800))
-    # design model of the synchronisation primitives (safety + liveness under fairness)
-    ctx.model("SyncPrims", "MC_SyncPrims", workers=8, timeout=600, must_cover=True)
-    # V: recorded free-running executions with jitter
     rec = vlib.build_harness(lib, "c13_record", ["c13_record.cpp"])
-    files = ctx.record(rec, ctx.pick(8, 32), ctx.pick(20000, 150000), "V/SyncPrims", timeout=ctx.pick(1200, 3600))
-    ctx.validate_traces("Trace_SyncPrims", "Trace_SyncPrims", files, label="V/SyncPrims", timeout=ctx.pick(600, 2400))
+    tmp = ctx.tmp
+    life = ctx.pick("q", "t")
+
+    # V recording runs in the background while TLC works on the models (ctx is only touched by this thread until it is joined)
+    rec_out = {}
+
+    def record():
+        rec_out["files"] = ctx.record(rec, ctx.pick(8, 32), ctx.pick(20000, 150000), "V/SyncPrims", timeout=ctx.pick(1200, 3600))
+
+    rec_err = []
+
+    def record_guarded():
+        try:
+            record()
+        except BaseException as e:  # re-raised on the main thread
+            rec_err.append(e)
+
+    rt = threading.Thread(target=record_guarded)
+    rt.start()
+
+    def emit(name):
+        return os.path.join(tmp, name + ".cases")
+
+    w = ctx.pick(2, 4)
+    tg = ctx.pick("MC_ThreadGroupLife_2", "MC_ThreadGroupLife_3")
+    sem_cfg = ctx.pick("MC_SyncPrims_sem", "MC_SyncPrims_sem_thorough")
+    cond_cfg = ctx.pick("MC_SyncPrims_cond", "MC_SyncPrims_cond_thorough")
+    # (two chains of one module run concurrently under two spellings of its name: vlib keys TLC's metadir by it)
+    jobs = [
+        [("ThreadLife", "MC_ThreadLife_lambda", dict(emit_to=emit("tl-lambda"), workers=1, timeout=300, coverage=True)),
+         ("ThreadLife", "MC_ThreadLife_subclass", dict(emit_to=emit("tl-subclass"), workers=1, timeout=300, coverage=True)),
+         ("ThreadLife", "MC_ThreadLife_lambda_asis", dict(workers=1, timeout=300)),
+         ("ThreadGroupLife", tg, dict(emit_to=emit("tg"), workers=ctx.pick(2, 8), timeout=ctx.pick(300, 1800), coverage=True))],
+        [("ThreadObjLife", "MC_ThreadObjLife_subclass_" + life, dict(emit_to=emit("life-sub"), workers=w, timeout=ctx.pick(300, 1800), coverage=True)),
+         ("ThreadObjLife", "MC_ThreadObjLife_asis", dict(workers=1, timeout=300))],
+        [("ThreadObjLife.tla", "MC_ThreadObjLife_lambda_" + life, dict(emit_to=emit("life-lam"), workers=w, timeout=ctx.pick(300, 1800), coverage=True)),
+         ("ThreadObjLife.tla", "MC_ThreadObjLife_detach", dict(workers=1, timeout=300))],
+        [("ParFor", "MC_ParFor_quick", dict(emit_to=emit("pfor"), workers=1, timeout=600))],
+        [("SyncPrims", sem_cfg, dict(workers=ctx.pick(2, 8), timeout=ctx.pick(600, 1800), coverage=True)),
+         ("SyncPrims", "MC_SyncPrims_eintr", dict(workers=1, timeout=300))],
+        [("SyncPrims.tla", cond_cfg, dict(workers=w, timeout=ctx.pick(600, 1800), coverage=True)),
+         ("SyncPrims.tla", "MC_SyncPrims", dict(workers=w, timeout=600, coverage=True)),
+         ("SyncPrims.tla", "MC_SyncPrims_pulse", dict(workers=1, timeout=300))],
+    ]
+    try:
+        res = _run_models(ctx, jobs)
+    finally:
+        rt.join()
+    if rec_err:
+        raise rec_err[0]
+
+    _accept(ctx, res, "ThreadLife", "MC_ThreadLife_lambda")
+    _accept(ctx, res, "ThreadLife", "MC_ThreadLife_subclass", ignore_cov=("CSpin", "CSpun", "WBody"))
+    _accept(ctx, res, "ThreadGroupLife", tg)
+    # non-vacuity of the invariants: the pre-fix / out-of-envelope designs must be rejected by the models
+    _expect_violation(ctx, res, "ThreadLife", "MC_ThreadLife_lambda_asis", "FinishedAfterJoin", "SelfCopy: pre-fix lambda constructor")
+    _accept(ctx, res, "ThreadObjLife", "MC_ThreadObjLife_subclass_" + life, ignore_cov=("OpCtor", "CSpun"))
+    _accept(ctx, res, "ThreadObjLife", "MC_ThreadObjLife_lambda_" + life, ignore_cov=("OpStart",))
+    _expect_violation(ctx, res, "ThreadObjLife", "MC_ThreadObjLife_asis", "NoDeadAccess",
+                      "ReadAfterFin: Thread::begin reads the object after the finished-flag store")
+    _expect_violation(ctx, res, "ThreadObjLife", "MC_ThreadObjLife_detach", "NoDeadAccess",
+                      "DestroyRunning: the worker stores the flag into a destroyed object")
+    _accept(ctx, res, "ParFor", "MC_ParFor_quick", must_cover=False)
+    _accept(ctx, res, "SyncPrims", sem_cfg, ignore_cov=("WLock", "WTest", "WSleep", "WTimeout", "WWake", "KTryOk", "KTryFail", "KLook"))
+    _accept(ctx, res, "SyncPrims", cond_cfg, ignore_cov=("Publish", "Post", "WaitRet", "WaitFail", "Interrupt", "Take", "WSleep"))
+    _accept(ctx, res, "SyncPrims", "MC_SyncPrims", ignore_cov=("WaitFail", "WSleep", "KTryOk", "KTryFail", "KLook"))
+    _expect_violation(ctx, res, "SyncPrims", "MC_SyncPrims_eintr", "NoPhantomWake", "EintrReturns: wait() returns when a signal handler interrupts it")
+    _expect_violation(ctx, res, "SyncPrims", "MC_SyncPrims_pulse", "AllWoken", "AtomicWait = FALSE: unlock and sleep as two steps lose a signal (Win32 shape)")
+
+    cases = os.path.join(tmp, "c13.cases")
+    with open(cases, "w") as out:
+        for name in ("tl-lambda", "tl-subclass", "tg", "life-sub", "life-lam", "pfor"):
+            out.write(open(emit(name)).read())
+    ctx.exhaustive = True
+    ctx.rule = ("cases = every terminal behaviour of ThreadLife.tla / ThreadGroupLife.tla / ThreadObjLife.tla (schedule + expected "
+                "observables per step) and every grid point of ParFor.tla; non-trivial = schedule cases and non-empty ranges; "
+                "distinct by case line")
+    # V: the recorded free-running executions are validated while the replay runs (on a shallow copy of ctx, merged afterwards:
+    # the counters are plain ints)
+    shadow = copy.copy(ctx)
+    base = (ctx.states, ctx.transitions, ctx.traces)
+    verr = []
+
+    def validate():
+        try:
+            shadow.validate_traces("Trace_SyncPrims", "Trace_SyncPrims", rec_out["files"], label="V/SyncPrims", timeout=ctx.pick(600, 2400))
+        except BaseException as e:
+            verr.append(e)
+
+    vt = threading.Thread(target=validate)
+    vt.start()
+    try:
+        ctx.replay(rep, cases, label="R/ThreadLife+ThreadObjLife+ParFor", args=["--batch", "200"], timeout=ctx.pick(600, 1800))
+    finally:
+        vt.join()
+    if verr:
+        raise verr[0]
+    ctx.states += shadow.states - base[0]
+    ctx.transitions += shadow.transitions - base[1]
+    ctx.traces += shadow.traces - base[2]
     ctx.assumptions += [
-        "schedule points are the ASL_VERIF hook points of Thread.h; each step runs from one point to the next",
-        "parallel_for grid: -3 <= i0,i1 <= 40, 1 <= n <= 12 (exhaustive), free-running OS scheduling",
+        "schedule points are the ASL_VERIF hook points of Thread.h plus a user point after every creator operation; each step runs from one point to the next",
+        "parallel_for grid: -3 <= i0,i1 <= 40, 1 <= n <= 12 (exhaustive); nested: ranges 0..3 x 0..3, 1..3 x 1..3 threads; free-running OS scheduling",
+        "recorder events bracket every call that has no hook inside the library (begin before, end after); glibc semantics of "
+        "sem_trywait / sem_timedwait / pthread_mutex_trylock: they fail only if the value was 0 / the mutex was held at some instant of the call",
+        "time-outs: clock slack 2 ms between the library's gettimeofday deadline and the recorder's monotonic measurement",
     ]
 
 
